@@ -310,7 +310,64 @@ def bounded(tier, seed):
         distinct.add(('cpf-len', ln))
         if term and exc is None and sent > 2 + 4 + 4 + ln:
             viol('CPF item declared length %d' % ln, 'terminal having consumed %d' % sent, 'at most header + declared length %d' % (10 + ln))
+    # every recognised CPF item type takes its limit from its own length field: the item never runs into what follows it (a second item, trailing bytes)
+    ident = struct.pack('<HHHBBHIB', 1, 0x0e, 54, 20, 11, 0x3060, 0x12345678, 4) + b'1756' + b'\xff'
+    sockaddr = struct.pack('>hH4s8s', 2, 44818, bytes([10, 0, 0, 1]), b'\x00' * 8)
+    bodies = {0x0001: struct.pack('<HH', 1, 0) + sockaddr + b'10.0.0.1'.ljust(16, b'\x00'),
+              0x00a1: struct.pack('<I', 0x11223344),
+              0x00b1: b'\x07\x00' + wire.read_tag('A', 0, 1),
+              0x00b2: wire.read_tag('A', 0, 1),
+              0x0100: struct.pack('<HH', 1, 0x20) + b'Communications\x00',        # the name and one NUL, as this library spells the item
+              0x000c: struct.pack('<H', 1) + sockaddr + ident}
+    follow = struct.pack('<HH', 0x00a1, 4) + struct.pack('<I', 0x55667788)
+    for typ, body in sorted(bodies.items()):
+        for count, tail in ((1, extra), (2, follow + extra), (1, b'\x00' * 5), (1, b'A' * 9)):
+            ev += 1
+            raw = struct.pack('<H', count) + struct.pack('<HH', typ, len(body)) + body + tail
+            term, sent, rest, exc, data = run_machine(parser.CPF(terminal=True), raw)
+            allowed = 6 + len(body) + (len(follow) if count == 2 else 0)
+            distinct.add(('cpf-item', typ, count, tail[:1]))
+            if not term or exc is not None:
+                viol('CPF item type 0x%04x with its exact length, %d item(s), followed by %r' % (typ, count, tail[:6]), 'terminal=%r exception=%r sent=%d' % (term, exc, sent),
+                     'the item is parsed within its declared length')
+            elif sent > allowed:
+                viol('CPF item type 0x%04x with its exact length, %d item(s), followed by %r' % (typ, count, tail[:6]), 'terminal having consumed %d symbols' % sent,
+                     'at most count + item headers + declared lengths = %d symbols, the following bytes left to the enclosing grammar' % allowed)
+            elif count == 2 and sent == allowed and data.get('p.CPF.item[1].connection_ID.connection') != 0x55667788:
+                viol('CPF item type 0x%04x followed by a second item' % typ, 'second item %r' % (data.get('p.CPF.item[1]'),), 'the second item is parsed as itself')
     # ---- repeat counts
+    def optional(repeat, ticks):
+        # a record may be empty: an optional marker byte; every cycle runs the record once whether or not it consumed a symbol
+        def tick(**kw):
+            ticks.append(1)
+            return True
+        opt = cpppo.state('option', terminal=True)
+        opt[b'+'[0]] = cpppo.state_drop('present', alphabet=cpppo.type_bytes_iter, terminal=True)
+        opt[None] = cpppo.decide('absent', predicate=tick, state=cpppo.state('none', terminal=True))
+        return cpppo.dfa('options', initial=opt, repeat=repeat)
+    for k in range(0, 6 if tier == 'quick' else 12):
+        for present in range(0, k + 1):
+            for mode in ('fixed', 'counted'):
+                ev += 1
+                ticks = []
+                from cpppo.server import enip
+                if mode == 'fixed':
+                    opts = optional(k, ticks)
+                    first = opts
+                    raw = b'+' * present + b'T\x99'
+                else:
+                    first = enip.USINT(context='count')
+                    first[None] = opts = optional('.count', ticks)
+                    raw = bytes([k]) + b'+' * present + b'T\x99'
+                opts[None] = enip.USINT(context='tail', terminal=True)
+                m = cpppo.dfa('msg', context='msg', initial=first, terminal=True)
+                term, sent, rest, exc, data = run_machine(m, raw, path=None)
+                runs = present + len(ticks)
+                distinct.add(('optional', k, present, mode))
+                if not (term and exc is None and runs == k and opts.cycle == k and rest == b'\x99' and data.get('msg.tail') == b'T'[0]):
+                    viol('repeat=%d (%s) of a record that may be empty, %d of them present' % (k, mode, present),
+                         'terminal=%r exception=%r, the record ran %d times (cycle=%r), rest=%r tail=%r' % (term, exc, runs, opts.cycle, rest, data.get('msg.tail')),
+                         'the sub-grammar runs exactly %d times, then the enclosing grammar takes the tail' % k)
     def records(repeat):
         from cpppo.server import enip
         tag = enip.octets('tag', context='tag', repeat=1)
